@@ -322,6 +322,8 @@ def run(tier, replay=None):
     run_chain_add(chk, F)
     run_pairing_kinds(chk, F)
     run_dimension_flow(chk, F)
+    run_pair_coefficients(chk, F)
+    run_bar_order(chk, F)
     chk.assumptions += ['clang 14 parser; template patterns', 'U is stored transposed for Z2: a column addition on R '
                         'is mirrored by add_to with exchanged indices or by one pushed entry']
     return chk
@@ -373,3 +375,113 @@ def run_dimension_flow(chk, F):
                     'the cell is stored (and its bar reported) in another dimension' % ir.show(a)[:40],
                     key='E10|%s::%s|dimension->%s|%d' % (f['clsname'], f['name'], ir.call_name(x), len(f['params'])))
     chk.expect_count('E10-dimension', 'dimension hand-overs', n, 10)
+
+
+# ------------------------------------------------------------------ E10 (column, coefficient) pairs
+
+def run_pair_coefficients(chk, F):
+    """E10: the reductions carry linear combinations as (column, coefficient) pairs. Whenever the coefficient handed
+    to a scaling operation is the `.second` of such a pair, the column that operation scales is the `.first` of the
+    same pair (directly, or through a local initialised from it): `X *= c` scales X; multiply_source_and_add[_to]
+    scales the source; multiply_target_and_add[_to] scales the target; the chain helper _add_to(column, set, c)
+    scales `column`. A coefficient applied to another column than its own changes the combination."""
+    import re
+    n = 0
+    for f in F.functions:
+        if f.get('inst') not in (0, 2) or f.get('body') is None or PM not in f['file']:
+            continue
+        locs = {}
+        for x in ir.walk(f['body']):
+            if x.get('k') == 'VarDecl' and x.get('init') is not None:
+                locs[x['n']] = ir.show(x['init'])
+        for x in ir.walk(f['body']):
+            scaled = coef = None
+            what = None
+            if x.get('k') in ('CompoundAssignOperator', 'CXXOperatorCallExpr') and x.get('op') == '*=':
+                c = (x.get('c') or [])[-2:]
+                if len(c) == 2:
+                    scaled, coef, what = c[0], c[1], '*='
+            elif ir.is_call(x):
+                nm = ir.call_name(x)
+                a = ir.call_args(x)
+                if nm == 'multiply_source_and_add_to' and len(a) == 3:
+                    coef, scaled, what = a[0], a[1], nm
+                elif nm == 'multiply_target_and_add_to' and len(a) == 3:
+                    scaled, coef, what = a[2], a[1], nm
+                elif nm == 'multiply_source_and_add' and len(a) == 2:
+                    scaled, coef, what = a[0], a[1], nm
+                elif nm == 'multiply_target_and_add' and len(a) == 2 and ir.call_receiver(x) is not None:
+                    coef, scaled, what = a[0], ir.call_receiver(x), nm
+                elif nm == '_add_to' and len(a) == 3 and ir.is_this_call(x):
+                    scaled, coef, what = a[0], a[2], nm
+            if coef is None:
+                continue
+            ct = ir.show(coef)
+            m = re.match(r'^\(?(.+?)\)?(->|\.)second$', ct)
+            if not m:
+                continue
+            base = m.group(1)
+            n += 1
+            st = ir.show(scaled)
+            firsts = (base + '.first', base + '->first', '(' + base + ').first', '*' + base + '.first')
+
+            def from_first(t, depth=2):
+                if any(ft in t for ft in firsts):
+                    return True
+                if depth == 0:
+                    return False
+                return any(re.search(r'(?<![\w.])%s(?!\w)' % re.escape(v), t) and from_first(init, depth - 1)
+                           for v, init in locs.items())
+            ok = from_first(st)
+            chk.ob('E10-pair-coefficient', '%s: the coefficient %s scales the column of its own pair (%s)'
+                   % (f['qual'].split('::')[-2] + '::' + f['name'], ct, what), '%s:%s' % (rel(f['file']), x.get('l')),
+                   ok, '' if ok else '%s scales `%s`, which does not come from %s.first: the coefficient of one '
+                   'chain multiplies another column (the combination computed is not sum c_i * column_i)'
+                   % (what, st, base), key='E10|%s|pair|%s' % (f['name'], ct))
+    chk.expect_count('E10-pair-coefficient', 'scaling operations fed from a (column, coefficient) pair', n, 3)
+
+
+# ------------------------------------------------------------------ E9 order of the stored bars (boundary flavour)
+
+def run_bar_order(chk, F):
+    """E9: the boundary-only flavour with removable columns removes the bar of the last (positive) cell with
+    barcode_.pop_back(): the removal relies on the bars being sorted by birth alone - the removed cell has the
+    highest position. The comparator of the sort in _reduce is therefore exactly the strict order on `birth`
+    (evaluated on the three relations of the two births), and _remove_last pops the back for a birth."""
+    from gsa import cmprules
+    fs = [f for f in F.functions if f.get('clsname') == 'Base_pairing' and f['name'] == '_reduce' and
+          f.get('inst') in (0, 2) and f.get('body') is not None]
+    rs = [f for f in F.functions if f.get('clsname') == 'Base_pairing' and f['name'] == '_remove_last' and
+          f.get('inst') in (0, 2) and f.get('body') is not None]
+    if len(fs) != 1 or len(rs) != 1:
+        raise AnalysisBroken('C05: Base_pairing::_reduce / _remove_last not found')
+    f, r = fs[0], rs[0]
+    pops = [x for x in ir.walk(r['body']) if ir.is_call(x) and ir.call_name(x) in ('pop_back', 'erase') and
+            'barcode_' in ir.show(x)]
+    relies = any(ir.call_name(x) == 'pop_back' for x in pops)
+    sorts = [x for x in cmprules.sort_calls(f) if 'barcode_' in ir.show(x)]
+    if not relies:
+        # the removal no longer depends on the order of the bars: nothing to require from the sort
+        chk.ob('E9-bar-order', 'Base_pairing::_remove_last does not rely on the order of the bars',
+               '%s:%d' % (rel(r['file']), r['line']), True, '', key='E9|Base_pairing|bar-order', nontrivial=False)
+        return
+    if len(sorts) != 1:
+        raise AnalysisBroken('C05: the sort of barcode_ in Base_pairing::_reduce was not found')
+    lam = ir.skipcasts(ir.call_args(sorts[0])[-1])
+    if lam is None or lam.get('k') != 'LambdaExpr':
+        raise AnalysisBroken('C05: the bar comparator is not a lambda')
+    pseudo = {'qual': 'Base_pairing::_reduce bar comparator', 'file': f['file'], 'line': lam.get('l') or f['line'],
+              'body': lam['body'], 'params': lam.get('params', [])}
+    cas = cmprules.Cascade(pseudo, None, None)
+    keys = cas.keys()
+    ok = keys == ['@.birth']
+    detail = ''
+    if ok:
+        res = {r_: cas.run({'@.birth': r_}) for r_ in ('lt', 'eq', 'gt')}
+        ok = res == {'lt': True, 'eq': False, 'gt': False}
+        detail = '' if ok else 'returns %s on (b1.birth < b2.birth, ==, >)' % [res['lt'], res['eq'], res['gt']]
+    else:
+        detail = ('keys compared: %s - _remove_last pops the back of barcode_ for the removed positive cell, which is '
+                  'the bar of highest birth only if the bars are sorted by birth alone' % keys)
+    chk.ob('E9-bar-order', 'Base_pairing::_reduce sorts the bars by birth alone (what _remove_last\'s pop_back relies on)',
+           '%s:%s' % (rel(f['file']), sorts[0].get('l')), ok, detail, key='E9|Base_pairing|bar-order')
